@@ -355,6 +355,32 @@ func (o *Oracle) beforeDeleteRange(inc *Inc, min, max uint64) {
 		}
 	case suffix || whole:
 		w.stats.probe("suffix_truncation")
+		// C04: a follower deletes existing entries only from the first index where its entry's term
+		// differs from the one sent: some AppendEntries that was handed to this incarnation and is
+		// not answered yet carries an entry for index lo with another term than the stored one
+		justified := false
+		for i := len(w.net.msgs) - 1; i >= 0 && i > len(w.net.msgs)-600 && !justified; i-- {
+			m := w.net.msgs[i]
+			if m.Dst != inc.node.idx || m.Kind != "AE" || m.DelivSeq == 0 || m.HandSeq != 0 || m.DstInc != inc.n {
+				continue
+			}
+			req, _ := m.Req.(*raft.AppendEntriesRequest)
+			if req == nil {
+				continue
+			}
+			for _, e := range req.Entries {
+				if e.Index == lo {
+					if old, ok := d.ent(lo); ok && old.Term != e.Term {
+						justified = true
+					}
+				}
+			}
+		}
+		if !justified {
+			old, _ := d.ent(lo)
+			w.violate("C04", "C04/truncation-without-conflict", "%s deletes [%d,%d] from its log [%d,%d] but no pending AppendEntries carries an entry for index %d whose term differs from the stored one (term %d)",
+				inc.tag, lo, hi, d.first, d.last, lo, old.Term)
+		}
 		if o.tainted == "" {
 			for i := lo; i <= hi; i++ {
 				if g := o.ghost[i]; g != nil {
@@ -1113,6 +1139,27 @@ func (o *Oracle) poll() {
 			// stays beyond the durable state names indexes that exist nowhere
 			w.violate("C11", "C11/last-index-not-on-disk", "%s: LastIndex()=%d but its durable log ends at %d and newest snapshot at %d", inc.tag, li, n.disk.last, n.disk.snapIndex()).
 				Facts["origin"] = o.originFacts(n)
+		}
+		// the latest configuration is an entry of the server's own log (or the one its newest snapshot
+		// carries): after a truncation that removes it the server falls back to the committed one (C07)
+		if _, _, latest, lidx := r.VerifConfigurations(); lidx > 0 {
+			okCfg := lidx <= n.disk.snapIndex()
+			if e, ok := n.disk.ent(lidx); ok && e.Type == raft.LogConfiguration {
+				if c, ok := decodeCfg(e.Data); ok && idsOf(c) == idsOf(latest) {
+					okCfg = true
+				}
+			}
+			switch {
+			case okCfg || w.flt.diskFaultsEver[n.idx]:
+				inc.cfgGhostSince = 0
+			case inc.cfgGhostSince == 0:
+				inc.cfgGhostSince = w.now() + 1
+			case w.now()-inc.cfgGhostSince > 10*w.cfg.ElectionTimeout+2*time.Second || (w.s2 && w.now()-inc.cfgGhostSince > 150*time.Millisecond):
+				e, _ := n.disk.ent(lidx)
+				w.violate("C07", "C07/latest-configuration-not-in-log", "%s: latest configuration is %d {%s} but its durable log holds (term %d, %v) at that index and its newest snapshot is at %d",
+					inc.tag, lidx, idsOf(latest), e.Term, e.Type, n.disk.snapIndex())
+				inc.cfgGhostSince = 0
+			}
 		}
 		if _, _, latest, lidx := r.VerifConfigurations(); lidx != inc.lastCfgIdx || len(inc.cfgHist) == 0 {
 			inc.lastCfgIdx = lidx
